@@ -348,3 +348,43 @@ def r15_6(ctx):
         ok = all(h.type is not None and ast.unparse(h.type) == "IndexError" for h in t.handlers) and len(t.body) == 1
         ctx.check(ok, "add_inf_constraints try/except", detail="placement failure swallowed",
                   expected="try: <single subject_to> except IndexError", found="handlers: %s, %d statements" % ([ast.unparse(h.type) if h.type else "bare" for h in t.handlers], len(t.body)), fi=f, node=t)
+
+
+OPCODE_SEMANTICS = {
+    "OP_INPUT": "symbols_to[i[0]]",
+    "OP_ADD": "work[i[0]] + work[i[1]]",
+    "OP_TWICE": "2 * work[i[0]]",
+    "OP_SUB": "work[i[0]] - work[i[1]]",
+    "OP_MUL": "work[i[0]] * work[i[1]]",
+    "OP_MTIMES": "np.dot(work[i[1]], work[i[2]]) + work[i[0]]",
+    "OP_PARAMETER": "f.instruction_MX(k)",
+    "OP_SQ": "work[i[0]]**2",
+    "OP_LE": "work[i[0]] <= work[i[1]]",
+    "OP_LT": "work[i[0]] < work[i[1]]",
+    "OP_NEG": "-work[i[0]]",
+    "OP_CONSTPOW": "work[i[0]]**work[i[1]]",
+}
+
+
+@rule("R15.7", min_instances=12, desc="each opcode of the re-interpreter computes exactly its CasADi operation on the substituted operands (no truncation, no operand swap)")
+def r15_7(ctx):
+    prog = ctx.prog
+    f = prog.function("casadi_helpers", "reinterpret_expr")
+    sc = ctx.scope(f)
+    seen = {}
+    for node in walk_no_nested(f.node):
+        if isinstance(node, ast.If) and isinstance(node.test, ast.Compare) and len(node.test.ops) == 1 and isinstance(node.test.ops[0], ast.Eq):
+            names = [x.id for x in [node.test.left] + node.test.comparators if isinstance(x, ast.Name) and x.id.startswith("OP_")]
+            if not names:
+                continue
+            op = names[0]
+            asg = [st for st in node.body if isinstance(st, ast.Assign) and isinstance(st.targets[0], ast.Subscript)]
+            if op in OPCODE_SEMANTICS:
+                want = Norm(None).poly(ast.parse(OPCODE_SEMANTICS[op], mode="eval").body)
+                ok = len(asg) == 1 and Norm(None).key(asg[0].targets[0]) == "work[o[0]]" and Norm(None).poly(asg[0].value) == want
+                seen[op] = True
+                ctx.check(ok, "reinterpret_expr %s" % op, detail="operation altered (an expression outside the supported set is silently reinterpreted as another one)",
+                          expected="work[o[0]] = " + OPCODE_SEMANTICS[op], found="; ".join(ast.unparse(a) for a in asg), fi=f, node=node, sample={"op": op})
+    for op in OPCODE_SEMANTICS:
+        if op not in seen:
+            ctx.fail("reinterpret_expr %s" % op, detail="supported operation no longer handled", expected=OPCODE_SEMANTICS[op], found="no branch", fi=f)
